@@ -46,7 +46,8 @@ def build(repo):
     return z3.And(
         n >= 0, Mat.len(mat) == n,
         z3.Implies(n >= 1, z3.And(
-            sz == (n + 63) / 64,
+            64 * sz >= n, sz >= 1, sz <= n,   # enough words for n columns (not necessarily the minimum)
+            z3.ForAll([b], z3.Implies(z3.And(0 <= b, b < n), b / 64 < sz)),   # consequence, stated to help the solver
             z3.ForAll([i], z3.Implies(z3.And(0 <= i, i < n), Row.len(Mat.at(mat, i)) == sz)),
             # padding bits are clear (a later add_node must not inherit a stale 1 in its new column)
             z3.ForAll([i, b], z3.Implies(z3.And(0 <= i, i < n, n <= b, b < 64 * sz), z3.Not(bit(mat, i, b)))))))
@@ -163,7 +164,7 @@ MUTANTS = [
     dict(name='src_dst_swapped_rows', file=CC, old="std::int64_t* row_dst = adj_[dst].data();", new="std::int64_t* row_dst = adj_[src].data();"),
     dict(name='div_32', file=CC, old="  int src_pos = src / 64;", new="  int src_pos = src / 32;"),
     dict(name='mask_31', file=CC, old="return 1l << (node_id & 63);", new="return 1l << (node_id & 31);"),
-    dict(name='size_off_by_one', file=CC, old="size_ = (num_nodes_ + 63) / 64;", new="size_ = (num_nodes_ + 64) / 64;", expect=0),
+    dict(name='size_off_by_one', file=CC, old="size_ = (num_nodes_ + 63) / 64;", new="size_ = (num_nodes_ + 64) / 64;", expect=0),  # one spare word: harmless
     dict(name='size_too_small', file=CC, old="size_ = (num_nodes_ + 63) / 64;", new="size_ = (num_nodes_ + 62) / 64;"),
     dict(name='no_row_resize', file=CC, old="    adj_[i].resize(size_, 0);\n", new="    if (i == node) adj_[i].resize(size_, 0);\n"),
     dict(name='is_reachable_swapped', file=CC, old="return adj_[src][dst / 64] & _node_bit(dst) ? true : false;",
